@@ -92,9 +92,9 @@ class RF24:
         if not addr:
             raise ValueError("address length cannot be 0")
         if pipe_num < 2:
-            if not pipe_num:
-                self._pipe0_read_addr = bytes(addr)
             self._reg_write_bytes(0x0A + pipe_num, addr)
+            if not pipe_num:
+                self._pipe0_read_addr = self._reg_read_bytes(0x0A)
         else:
             self._reg_write(0x0A + pipe_num, addr[0])
         self._reg_write(2, self._reg_read(2) | (1 << pipe_num))
